@@ -260,17 +260,23 @@ class TwistedAdapter(Adapter):
 
         self.env.grace = 3907  # TwistedEventLoop._idle_emulation_delay = 1/256 s, documented idle emulation
         # a reactor owns wake-up pipes (its waker, the signal waker installed by run()) that nothing closes when the reactor object
-        # is dropped: thousands of scenarios in one process ran into the descriptor limit.  Close what this adapter's reactor opened.
-        before = set(os.listdir("/proc/self/fd"))
+        # is dropped: thousands of scenarios in one process ran into the descriptor limit.  Close exactly those.
+        def close_reactor_pipes():
+            r = self.reactor
+            wakers = [getattr(r, "waker", None), getattr(r, "_childWaker", None)]
+            try:
+                r._signals.uninstall()      # gives the signal handlers back and closes the SIGCHLD waker
+            except Exception:  # noqa: BLE001
+                pass
+            for w in wakers:
+                for fd in (getattr(w, "i", None), getattr(w, "o", None)):
+                    if isinstance(fd, int) and fd > 2:
+                        try:
+                            os.close(fd)
+                        except OSError:
+                            pass
 
-        def close_new_fds():
-            for name in set(os.listdir("/proc/self/fd")) - before:
-                try:
-                    os.close(int(name))
-                except OSError:
-                    pass
-
-        self.cleanup.append(close_new_fds)
+        self.cleanup.append(close_reactor_pipes)
         self.aloop = _virtual_asyncio_loop(self.env)
         self.reactor = AsyncioSelectorReactor(self.aloop)
         self.reactor.seconds = lambda: self.env.now
